@@ -271,7 +271,7 @@ def run15(tier, replay):
     # 3. requests
     if replay:
         rp = json.load(open(replay))
-        cases = [v["detail"]["case"] for v in rp.get("violations", []) if v.get("detail", {}).get("case")]
+        cases = [fg.gov_expand(v["detail"]["case"]) for v in rp.get("violations", []) if v.get("detail", {}).get("case", {}).get("req", {}).get("seq")]
         if not cases:
             raise vlib.Broken("replay file has no case")
     else:
@@ -296,14 +296,14 @@ def run15(tier, replay):
         small = {"kind": rj.get("kind"), "tags": rj.get("tags"), "unfit": rj.get("unfit"), "expect": rj.get("expect"),
                  "calls": [{k: (v if k != "vaa" else {kk: (vv if len(str(vv)) < 300 else str(vv)[:300] + "...") for kk, vv in v.items()})
                             for k, v in c.items()} for c in ln["s"]["calls"]],
-                 "case": case if len(json.dumps(case)) < 20000 else {"req": {"kind": rj.get("kind"), "note": "large request omitted"}}}
+                 "case": fg.gov_compact({k: v for k, v in case.items() if k != "expect"})}
         for sig in fg.gov_signatures(rj, ln):
             found.append((sig, small))
     _add_distinct_first(verdict, found)
     # R: the outcome TLC exported for its own enumeration must also be what validation concluded (consistency of the two paths)
     rejected_ids = {rj["t"] for rj in rejs}
     for i, c in enumerate(cases):
-        if c.get("src") == "tlc" and c["expect"]["class"] == "reject":
+        if c.get("src") == "tlc" and c.get("expect", {}).get("class") == "reject":
             if any(k["class"] == "vaa" for k in byt[i + 1]["s"]["calls"]) and (i + 1) not in rejected_ids:
                 raise vlib.Broken("TLC's exported expectation and trace validation disagree on case %d" % (i + 1))
     # independent digest check
